@@ -577,6 +577,72 @@ def quick_tier():
     return common.tier() == "quick"
 
 
+def free_part(pid, V, rng, quick, st):
+    """Free-running scans (C18): a child process inserts points while 1-3 ms timer flushes and
+    memstore-inclusive queries run concurrently; every result must show exactly the cells of a
+    prefix of the stream (the first m entries, for some m), and successive results of a table
+    prefixes that do not shrink."""
+    import subprocess
+    from concurrent.futures import ThreadPoolExecutor
+    zk = common.build(("zvkill",))["zvkill"]
+    work = common.scratch(pid + "-free")
+    tables = C18_TABLES
+    jobs = []
+    for di in range(6 if quick else 48):
+        menu = random_menu(rng, rng.randint(14, 22), ticks=(1, 9), arrays=False, keys=rng.choice([BASIC_KEYS, [1, 3], [7, 10, 8, 1, 2]]))
+        jobs.append((di, menu, rng.choice([0, 100, 400, 1500])))
+
+    def one(job):
+        di, menu, pace = job
+        d = os.path.join(work, "d%d" % di)
+        os.makedirs(d, exist_ok=True)
+        pts = []
+        for x in menu:
+            c = render_insert(x)
+            pts.append({"id": x["id"], "ts": x["ts"], "dims": c["dims"], "vals": c["vals"]})
+        p = subprocess.run([zk, "-mode", "free", "-dir", os.path.join(d, "data")], input=json.dumps({"tables": [t.define() for t in tables], "points": pts, "paceUs": pace}),
+                           stdout=subprocess.PIPE, stderr=subprocess.PIPE, text=True, timeout=300)
+        shutil.rmtree(d, ignore_errors=True)
+        return di, menu, p.returncode, [json.loads(l) for l in p.stdout.splitlines() if l.startswith('{"a":"Free"')], p.stderr[:1500]
+
+    with ThreadPoolExecutor(6) as ex:
+        results = list(ex.map(one, jobs))
+    for di, menu, rc, lines, err in results:
+        if rc != 0 or not lines:
+            m = re.search(r"^(?:panic|fatal error): (.*)$", err, re.M)
+            if m and ("/zenodb" in err or "/repo/" in err):
+                rp = common.save_replay(pid, "free-d%d-panic" % di, {"kind": "free-run", "menu": menu, "stderr": err})
+                V.violation(rp, "the database panics under concurrent inserts, timer flushes and scans: %s" % m.group(1)[:200])
+                continue
+            raise InfraError("zvkill free run %d exited %d: %s" % (di, rc, err[:400]))
+        st["dirs"] += 1
+        prefixes = {t.name: [expected_cells(t, menu, m, False) for m in range(len(menu) + 1)] for t in tables}
+        last = {t.name: 0 for t in tables}
+        for l in lines:
+            st["results"] += 1
+            if l.get("err"):
+                continue
+            obs = rows_to_cells(l["rows"])
+            cand = [m for m, e in enumerate(prefixes[l["t"]]) if e == obs]
+            if obs:
+                st["nonempty"] += 1
+            if 0 < len(obs) and cand and max(cand) < len(menu):
+                st["strict_prefixes"] += 1
+            ok = [m for m in cand if m >= last[l["t"]] or prefixes[l["t"]][m] == prefixes[l["t"]][last[l["t"]]]]
+            if not cand or not ok:
+                why = "is not the content of any prefix of the stream" if not cand else "reflects a shorter prefix (%s entries) than an earlier result of the same table (%d)" % (cand, last[l["t"]])
+                # the nearest prefix, for the report
+                best = min(range(len(menu) + 1), key=lambda m: len(diff_cells(obs, prefixes[l["t"]][m])))
+                d = diff_cells(obs, prefixes[l["t"]][best])
+                rp = common.save_replay(pid, "free-d%d-q%d" % (di, l["q"]), {"kind": "free-run", "menu": menu, "line": l,
+                                                                           "nearest_prefix": best, "diff": [[list(k), v] for k, v in sorted(d.items(), key=repr)][:10]})
+                V.violation(rp, "free-running scan %d of table %s (inserts returned before / after it: %d / %d) %s; against the first %d entries it differs on %s"
+                            % (l["q"], l["t"], l["before"], l["after"], why, best, [[list(k), v] for k, v in sorted(d.items(), key=repr)][:3]))
+                break
+            last[l["t"]] = max(last[l["t"]], min(ok))
+    shutil.rmtree(work, ignore_errors=True)
+
+
 def kill_part(pid, V, rng, quick, st):
     """Asynchronous SIGKILL (C02): a child process ingests points with timer-driven flushes and is
     killed at a random instant, three times per directory; afterwards every acknowledged point
@@ -1184,13 +1250,23 @@ def check_C18(args):
                             racing += 1
                             break
                         j += 1
-        return {"held_scans": held, "held_scans_overlapping_an_apply_or_swap_of_their_table": racing}
+        return {"held_scans": held, "held_scans_overlapping_an_apply_or_swap_of_their_table": racing,
+                "free_running_processes": fst["dirs"], "free_running_scan_results": fst["results"],
+                "free_running_results_of_a_strict_prefix": fst["strict_prefixes"]}
+
+    fst = {"dirs": 0, "results": 0, "nonempty": 0, "strict_prefixes": 0}
+
+    def post_judge(V, scenarios, traces):
+        if not args.replay:
+            free_part("C18", V, random.Random(common.seed() * 17 + 18), quick_tier(), fst)
 
     return store_check(args, "C18", mc_jobs, gen, ["MemLockStep", "AtMostOnce"], True,
                        ["a scan is held by blocking its row callback after the j-th flat row (j = 1..3); "
                         "inserts, row-store applies and flush steps are then driven through the gates before it is released",
-                        "schema static, all points inside the retention window"] + BASE_ASSUMPTIONS[:1],
-                       end_oracle=False, extra_cov=extra_cov)
+                        "schema static, all points inside the retention window",
+                        "free-running part: a child process inserts while 1-3 ms timer flushes and memstore-inclusive scans run; every result "
+                        "must be exactly the content of a prefix of the stream, prefixes of successive scans of a table do not shrink"] + BASE_ASSUMPTIONS[:1],
+                       end_oracle=False, extra_cov=extra_cov, post_judge=post_judge)
 
 
 # ---------------------------------------------------------------- C04
